@@ -14,10 +14,16 @@ use std::time::Duration;
 use tokio::sync::oneshot;
 use tower::{Layer, Service, ServiceExt};
 
+/// Distinct identities for distinct n; deliberately similar to one another: the same leading and
+/// trailing bytes for all, n spread over one byte chosen by n itself (so that pairs differing only in
+/// their last byte, only in their first byte or only somewhere in the middle all occur).
 fn peer(n: u64) -> PeerId {
-    let mut b = [0u8; 32];
-    b[..8].copy_from_slice(&n.to_le_bytes());
-    b[31] = (n % 251) as u8;
+    let mut b = [7u8; 32];
+    let pos = [31usize, 0, 8, 16, 30, 9][(n % 6) as usize];
+    b[pos] = b[pos].wrapping_add(1 + (n / 6) as u8);
+    if n / 6 >= 255 {
+        b[12..20].copy_from_slice(&n.to_le_bytes());
+    }
     PeerId(b)
 }
 
@@ -42,11 +48,12 @@ fn auth_case(t: &[&str]) -> String {
     let log: Arc<Mutex<Vec<String>>> = Arc::new(Mutex::new(Vec::new()));
     let log2 = log.clone();
     let inner = tower::service_fn(move |req: Request<Bytes>| {
-        let log = log2.clone();
+        // recorded in `call` itself, not in the returned future: a layer that hands the request to the
+        // wrapped service before its decision is seen even if it never polls the future
+        let tag = req.headers().get("tag").cloned().unwrap_or_default();
+        let seen = req.headers().contains_key("seen");
+        log2.lock().unwrap().push(tag.clone());
         async move {
-            let tag = req.headers().get("tag").cloned().unwrap_or_default();
-            let seen = req.headers().contains_key("seen");
-            log.lock().unwrap().push(tag.clone());
             Ok::<_, Infallible>(
                 Response::new(Bytes::from(format!("inv:{tag}{}", if seen { ":seen" } else { "" }))),
             )
@@ -162,23 +169,28 @@ impl Drop for ExitGuard {
 
 fn inflight_case(t: &[&str]) -> String {
     // inflight <block|err> <max> <tok>*   tok = a<p> | F<k> | X<k> | C<k>
-    let mode = if t[1] == "block" { inflight_limit::WaitMode::Block } else { inflight_limit::WaitMode::ReturnError };
+    // <mode>[+same]: with "+same" every request goes through one and the same service value
+    // (`ready().call()`), otherwise through a fresh clone of the value the layer produced
+    let same = t[1].ends_with("+same");
+    let mode = if t[1].starts_with("block") { inflight_limit::WaitMode::Block } else { inflight_limit::WaitMode::ReturnError };
     let max: usize = t[2].parse().unwrap();
     let state = Arc::new(Mutex::new(Inner::default()));
     let st2 = state.clone();
     let inner = tower::service_fn(move |req: Request<Bytes>| {
         let st = st2.clone();
+        // entry is recorded in `call` itself (see the auth driver)
+        let r: u64 = req.headers().get("r").unwrap().parse().unwrap();
+        let p: u64 = req.headers().get("p").unwrap().parse().unwrap();
+        let (tx, rx) = oneshot::channel();
+        {
+            let mut g = st.lock().unwrap();
+            g.entered.push(r);
+            g.gates.insert(r, tx);
+            g.in_service.insert(r, p);
+        }
+        let _guard = ExitGuard(st.clone(), r);
         async move {
-            let r: u64 = req.headers().get("r").unwrap().parse().unwrap();
-            let p: u64 = req.headers().get("p").unwrap().parse().unwrap();
-            let (tx, rx) = oneshot::channel();
-            {
-                let mut g = st.lock().unwrap();
-                g.entered.push(r);
-                g.gates.insert(r, tx);
-                g.in_service.insert(r, p);
-            }
-            let _guard = ExitGuard(st.clone(), r);
+            let _guard = _guard;
             match rx.await {
                 Ok(true) => Ok(Response::new(Bytes::new())),
                 _ => Err(anemo::rpc::Status::new(StatusCode::BadRequest)),
@@ -190,6 +202,7 @@ fn inflight_case(t: &[&str]) -> String {
     let out = rt.block_on(async move {
         let mut out: Vec<String> = Vec::new();
         let mut next_r: u64 = 0;
+        let mut shared = svc.clone();
         // live requests: r -> (peer, task handle)
         let mut live: Vec<(u64, u64, tokio::task::JoinHandle<Result<Response<Bytes>, anemo::rpc::Status>>)> = Vec::new();
         let mut seen_entered = 0usize;
@@ -207,8 +220,14 @@ fn inflight_case(t: &[&str]) -> String {
                         .with_header("r", r.to_string())
                         .with_header("p", arg.to_string())
                         .with_extension(peer(arg));
-                    let s = svc.clone();
-                    let h = tokio::spawn(async move { s.oneshot(req).await });
+                    let h = if same {
+                        use tower::ServiceExt as _;
+                        let fut = shared.ready().await.unwrap().call(req);
+                        tokio::spawn(fut)
+                    } else {
+                        let s = svc.clone();
+                        tokio::spawn(async move { s.oneshot(req).await })
+                    };
                     live.push((r, arg, h));
                     concrete = format!("a{arg}.{r}");
                     arrived = Some(r);
@@ -336,12 +355,10 @@ fn ratelayer_case(t: &[&str]) -> String {
     let log2 = log.clone();
     let start = std::time::Instant::now();
     let inner = tower::service_fn(move |req: Request<Bytes>| {
-        let log = log2.clone();
-        async move {
-            let p: u64 = req.headers().get("p").unwrap().parse().unwrap();
-            log.lock().unwrap().push((p, start.elapsed().as_nanos()));
-            Ok::<_, anemo::rpc::Status>(Response::new(Bytes::new()))
-        }
+        // recorded in `call` itself (see the auth driver)
+        let p: u64 = req.headers().get("p").unwrap().parse().unwrap();
+        log2.lock().unwrap().push((p, start.elapsed().as_nanos()));
+        async move { Ok::<_, anemo::rpc::Status>(Response::new(Bytes::new())) }
     });
     let svc = RateLimitLayer::new(quota, mode).layer(inner);
     let rt = tokio::runtime::Builder::new_multi_thread().worker_threads(2).enable_all().build().unwrap();
